@@ -243,6 +243,7 @@ pub fn digest_target(src: &str, path: Option<PathBuf>, samples: u64, dump: bool)
     let opts = SutOptions {
         with_scheduler: true,
         sample_rate: 48000,
+        self_init_0: false,
     };
     for backend in [Backend::Vm, Backend::WasmP3] {
         let r = guarded(|| -> Result<String, String> {
@@ -285,7 +286,7 @@ fn run_history_item(h: &HistItem) -> (bool, bool) {
                 Entry::Bytecode => comp.emit_bytecode(&src).is_ok(),
                 Entry::Wasm => comp.emit_wasm(&src).is_ok(),
                 Entry::RunVm => {
-                    let opts = SutOptions { with_scheduler: true, sample_rate: 48000 };
+                    let opts = SutOptions { with_scheduler: true, sample_rate: 48000, self_init_0: false };
                     match Sut::start(Backend::Vm, &src, path.clone(), &opts, RetireMode::Present) {
                         Ok(mut s) => {
                             let mut o = vec![];
